@@ -675,7 +675,7 @@ class StructType(DataType):
         if isinstance(obj, dict):
             return tuple(f.toInternal(obj.get(n)) if c else obj.get(n)
                          for n, f, c in zip(self.names, self.fields, self._needConversion))
-        if isinstance(obj, Row):
+        if isinstance(obj, Row) and hasattr(obj, "__fields__"):
             return create_row(
                 obj.__fields__,
                 (f.toInternal(val) for f, val, c in zip(self.fields, obj, self._needConversion))
@@ -1453,7 +1453,7 @@ def get_struct_verifier(dataType, new_name, assert_acceptable_types, new_msg):
         if isinstance(obj, dict):
             for f, verifier in verifiers:
                 verifier(obj.get(f))
-        elif isinstance(obj, Row):
+        elif isinstance(obj, Row) and hasattr(obj, "__fields__"):
             # the order in obj could be different than dataType.fields
             for f, verifier in verifiers:
                 verifier(obj[f])
